@@ -54,6 +54,17 @@ def mutations(lib, rep):
     yield L('(control) comments and blank lines added (same meaning)', '                let slot = i * 2;\n', '                // two slots per group\n\n                let slot = /* start */ i * 2;\n', 't')
     yield L('(control) RegexOptions::default: two fields swapped in the literal (same meaning)',
             '            backtrack_limit: 1_000_000,\n            delegate_size_limit: None,\n', '            delegate_size_limit: None,\n            backtrack_limit: 1_000_000,\n', 'u')
+    # ---- the widened subset
+    yield L('(control) Captures::get: the local `slot` renamed to `order` (a name the generated code uses itself: renamed apart; same meaning)',
+            '                let slot = i * 2;\n                if slot >= saves.len() {\n                    return None;\n                }\n                let lo = saves[slot];\n                if lo == usize::MAX {\n                    return None;\n                }\n                let hi = saves[slot + 1];',
+            '                let order = i * 2;\n                if order >= saves.len() {\n                    return None;\n                }\n                let lo = saves[order];\n                if lo == usize::MAX {\n                    return None;\n                }\n                let hi = saves[order + 1];', 'w1')
+    yield L('(control) Captures::get: `let slot: usize = i * 2;` (type annotation, same meaning)', '                let slot = i * 2;\n', '                let slot: usize = i * 2;\n', 'w2')
+    yield L('(w) find (VM path): the start capped from below, `saves[0].max(pos)` (seeded C09/d without its vm.rs half)',
+            'Match::new(text, saves[0], saves[1])', 'Match::new(text, saves[0].max(pos), saves[1])', 'w3')
+    yield L('(x) capture_names: `Vec::with_capacity` and a `resize` on demand instead of `resize(self.captures_len(), None)` (seeded C16/g)',
+            '        let mut names = Vec::new();\n        names.resize(self.captures_len(), None);\n        for (name, &i) in self.named_groups.iter() {\n',
+            '        let mut names = Vec::with_capacity(self.captures_len());\n        for (name, &i) in self.named_groups.iter() {\n            if names.len() <= i {\n                names.resize(i + 1, None);\n            }\n', 'w4')
+    yield L('(y) captures: `saves.truncate(n_groups * 2)` -> `saves.truncate(n_groups << 2)`', 'saves.truncate(n_groups * 2);', 'saves.truncate(n_groups << 2);', 'w5')
     yield L('(rejected?) Captures::len written with `.checked_div`', 'CapturesImpl::Fancy { saves, .. } => saves.len() / 2,', 'CapturesImpl::Fancy { saves, .. } => saves.len().checked_div(2).unwrap_or(0),', 'v')
 
 
